@@ -286,3 +286,39 @@ func (c *c19) scriptLocked(mu *sync.Mutex, seed int64, base time.Duration, rec *
 	mu.Unlock()
 	return a, b
 }
+
+// TimerScripts runs n timer scripts sequentially-in-parallel (used by the rt engine's race-detector children).
+func TimerScripts(seed int64, n int) (viol [][2]string, received, judged, leftover int) {
+	c := &c19{byRule: map[string]int{}}
+	var mu sync.Mutex
+	var wg sync.WaitGroup
+	sem := make(chan struct{}, 8)
+	for i := 0; i < n; i++ {
+		wg.Add(1)
+		sem <- struct{}{}
+		go func(i int) {
+			defer wg.Done()
+			defer func() { <-sem }()
+			a, b := c.scriptLocked(&mu, seed*1000003+int64(i), 2*time.Millisecond, nil)
+			mu.Lock()
+			received += a
+			judged += b
+			mu.Unlock()
+		}(i)
+	}
+	wg.Wait()
+	for w := 0; w < 100; w++ {
+		leftover = triggerGoroutines()
+		if leftover == 0 {
+			break
+		}
+		time.Sleep(20 * time.Millisecond)
+	}
+	if leftover != 0 {
+		c.bad("timer-goroutine-left-after-stop", fmt.Sprintf("%d goroutines still inside triggerElections 2 s after every trigger was stopped", leftover))
+	}
+	for _, f := range c.findings {
+		viol = append(viol, [2]string{f.Rule, f.Detail})
+	}
+	return
+}
